@@ -301,6 +301,27 @@ theorem crash_closed_from_input (c : Cfg) (s : Site) (pin : Option PageIn) (hl :
     (l : List Prim) (h : l.Sublist (runIn c s pin)) : ∀ p ∈ l, Allowed (outDir c) (graphDir c) p :=
   fun p hp => confined_from_input_partial c s pin hl hs ht hv hg p (h.subset hp)
 
+/-- **The order of the attempts is immaterial.** The check compares the attempts of a real run with the
+    model's up to the order of attempts in different sub-trees (a write-out whose independent statements
+    were re-ordered performs a permutation of the model's run). Confinement does not depend on the
+    order: a list made of attempts of the model's run - in any order, any part of it, with
+    repetitions - is confined. -/
+theorem any_order_closed_from_input (c : Cfg) (s : Site) (pin : Option PageIn) (hl : LinksOk c.links) (hs : SiteOk s)
+    (ht : ∀ p, pin = some p → TreesOk p)
+    (hv : c.repaired = true ∨ noEscape (withPages c.subGuard (outDir c) s pin) = true)
+    (hg : c.subGuard = true ∨ ∀ p, pin = some p → noSubpageEscape p = true)
+    (l : List Prim) (h : ∀ p ∈ l, p ∈ runIn c s pin) : ∀ p ∈ l, Allowed (outDir c) (graphDir c) p :=
+  fun p hp => confined_from_input_partial c s pin hl hs ht hv hg p (h p hp)
+
+/-- ... in particular a permutation of the run that is aborted at the n-th attempt, all n. -/
+theorem reordered_prefix_closed_from_input (c : Cfg) (s : Site) (pin : Option PageIn) (hl : LinksOk c.links)
+    (hs : SiteOk s) (ht : ∀ p, pin = some p → TreesOk p)
+    (hv : c.repaired = true ∨ noEscape (withPages c.subGuard (outDir c) s pin) = true)
+    (hg : c.subGuard = true ∨ ∀ p, pin = some p → noSubpageEscape p = true)
+    (l : List Prim) (h : l.Perm (runIn c s pin)) (n : Nat) :
+    ∀ p ∈ l.take n, Allowed (outDir c) (graphDir c) p :=
+  any_order_closed_from_input c s pin hl hs ht hv hg _ (fun _ hp => h.subset (List.mem_of_mem_take hp))
+
 /-- **Witness of the defect "an `ordered_subpage` entry leaves the page directory".** Project in `/w/p`,
     `page_dir: pages`, `output_dir: out/doc`; `pages/index.md` lists `sub/../../../elsewhere` and
     `/w/elsewhere/index.md` exists. The code as it is gives that page the location `../../elsewhere` and
